@@ -291,6 +291,9 @@ impl Encoder for GossipsubCodec {
     }
 }
 
+/// The maximum number of bytes of an unsigned varint length prefix.
+const MAX_LENGTH_PREFIX_SIZE: usize = 10;
+
 /// Validate RPC limits by parsing the wire format without allocating.
 fn validate_rpc_limits(
     mut buf: &[u8],
@@ -298,17 +301,28 @@ fn validate_rpc_limits(
     max_publish_messages: usize,
     max_control_message_size: usize,
 ) -> io::Result<bool> {
+    let received = buf.len();
+
+    // Consume length prefix and get message bytes from length-prefixed buffer for validation
+    if !consume_message_prefix(&mut buf)? {
+        // The frame is incomplete. It is longer than what has been received minus its length
+        // prefix, so stop buffering once that alone exceeds the maximum.
+        if received > max_message_size.saturating_add(MAX_LENGTH_PREFIX_SIZE) {
+            return Err(io::Error::new(
+                io::ErrorKind::InvalidData,
+                format!("message with more than {max_message_size}b exceeds maximum"),
+            ));
+        }
+        return Ok(false);
+    }
+
+    // The limit applies to this RPC only, not to whatever else is in the receive buffer.
     let message_length = buf.len();
     if message_length > max_message_size {
         return Err(io::Error::new(
             io::ErrorKind::InvalidData,
             format!("message with {message_length}b exceeds maximum of {max_message_size}b",),
         ));
-    }
-
-    // Consume length prefix and get message bytes from length-prefixed buffer for validation
-    if !consume_message_prefix(&mut buf)? {
-        return Ok(false);
     }
 
     let mut publish_count = 0;
